@@ -335,7 +335,7 @@ def main(run, shard=(0, 1)) -> None:
         '_remove_copyset': (vm, '_remove_copyset'), 'CopySet.__iter__': (vm, 'CopySet.__iter__'), 'VMF.search': (vm, 'VMF.search'),
     })
     probe.start()
-    n = 16000 if run.tier == 'thorough' else 500
+    n = 200000 if run.tier == "thorough" else 500
     for i in range(n):
         if mine(i, shard):
             run_history(run, run.seed, i)
